@@ -2,13 +2,15 @@
 
 Pipeline (DESIGN.md 2.2): regenerate tables -> build model driver + property theorems -> audit ->
 corpus + correspondence + monitors -> verdict -> evidence.
-Exit 0: property held on everything explored (KNOWN-FINDING lines allowed); 1: VIOLATION; 2: infrastructure failure.
+Exit 0: property held on everything explored (KNOWN-FINDING lines allowed); 1: VIOLATION; 2: no source tree or bad usage.  A harness that raises, blocks or exceeds its wall-clock budget on the tree under check is a
+correspondence that no longer checks: exit 1 with `no-failing-input-found` (DESIGN 2.2).
 """
 import importlib
 import json
 import os
 import random
 import re
+import subprocess
 import sys
 import time
 import traceback
@@ -165,13 +167,24 @@ def main(argv):
 
     # 1. regenerate tables from the source, 2. build (serialised across concurrent checks)
     with common.build_lock():
-        tables, err = common.gen_tables()
+        try:
+            tables, err = common.gen_tables()
+        except subprocess.TimeoutExpired:
+            tables, err = None, 'the table generator did not finish within 300 s'
+        gen_err = None
         if tables is None:
-            print(f'INFRA: table generation failed: {err}')
-            return 2
+            if not os.path.isdir(os.path.join(common.REPO, 'src', 'plumpy')):
+                print(f'INFRA: no plumpy sources under {common.REPO}: {err}')
+                return 2
+            # the translator cannot read this tree: the generated tables are not re-derived, so nothing proved about them is
+            # tied to it.  A broken obligation like any other: search the real code with the tables of the last good run.
+            print(f'table generation failed:\n{err}')
+            gen_err, tables = err, {'changed': ['<generation failed>']}
         model_ok, model_log = common.lake_build(['pmodel'])
         proof_ok, proof_log = common.lake_build([props_module])
     broken = []
+    if gen_err is not None:
+        broken.append({'kind': 'translator', 'what': 'harness/gen_tables.py failed on this tree', 'error': gen_err[-3000:]})
     if not proof_ok:
         errs = re.findall(r'error: ([^\n]*\n(?:[^\n]*\n){0,6})', proof_log)
         broken.append({'kind': 'proof-obligation', 'module': props_module, 'lean_errors': [e.strip() for e in errs[:5]]})
@@ -238,8 +251,12 @@ def main(argv):
         try:
             searched = mod.run(sctx)
         except Exception:
-            print('INFRA: harness error during search\n' + traceback.format_exc())
-            return 2
+            # the search itself could not drive this tree: nothing found, and the obligation stays broken
+            tb = traceback.format_exc()
+            print('harness error during search\n' + tb)
+            broken.append({'kind': 'correspondence', 'what': 'the harness raised while searching for a failing input',
+                           'traceback': tb[-3000:]})
+            searched = {'failures': [], 'evaluations': 0}
         sunknown = [f for f in searched.get('failures', []) if not match_finding(findings, prop, f)]
         verdict = 1
         if sunknown:
